@@ -145,7 +145,7 @@ PROPERTIES = {
         "steps": [seq("c06.*"), net("C06")],
         "technique": "bounded-exhaustive tampering of real protected packets (every bit / truncation / splice) + differential deviation-bounded exploration with forged datagrams injected next to every genuine datagram",
         "level_text": "seqmc c06.aead: for all three cipher suites and Initial keys, real encrypt+protect output is byte-compared with an independent RFC 9001 5.3/5.4 transcription on bare aws-lc primitives, and every single-bit flip, every truncation, every two-packet splice and garbage of the same size must be rejected by the real unprotect+decrypt; c06.nonce: iv xor pn is pairwise distinct over 0..5000, around 2^32 and up to 2^62-1 and matches RFC 9001 Appendix A. netmc forge family (real TLS): for every datagram index of an established transfer, every single bit of the first 32 bytes and three masks (^01/^80/^ff) of every further byte, all truncations, splices with the previous datagram and garbage datagrams claiming the genuine source address are delivered just before the genuine datagram; the run must be observationally identical (application log, the payload-bearing packets processed and acknowledged per space, ECN counts, close events) to the same schedule without the forgeries. Replays: every datagram re-delivered 1 ms / 60 ms / 400 ms later - no packet number reaches frame processing twice, ACKs name only processed packets (ACK monitor), data intact.",
-        "level_note": "Differential oracle needs no expected values. Stateless resets with the peer's genuine token are excluded by construction (forgeries are mutations/garbage). Cipher suite end-to-end is the one the TLS provider negotiates (component part covers all three). Forgeries are always the last deviation of a schedule (the stateless resets / version negotiations some of them provoke shift later indices); thorough adds forgeries after every loss / duplicate / delay and of a multi-stream BBR transfer. A violating execution whose re-run has a different trace hash is accepted when every violated clause is reproduced (per-run TLS keys).",
+        "level_note": "Differential oracle needs no expected values. Stateless resets with the peer's genuine token are excluded by construction (forgeries are mutations/garbage). Cipher suite end-to-end is the one the TLS provider negotiates (component part covers all three). Forgeries are always the last deviation of a schedule (the stateless resets / version negotiations some of them provoke shift later indices); both tiers also forge after every loss / duplicate / delay (pairs) and in a multi-stream BBR transfer, and re-deliver the datagrams of a 1.5 MB upload 100 ms later (replay older than the duplicate window). A violating execution whose re-run has a different trace hash is accepted when every violated clause is reproduced (per-run TLS keys).",
         "design_ref": "DESIGN.md §3 C06",
         "assumptions": ["small-scope hypothesis", "aws-lc primitives are correct (trusted base of the independent transcription)"],
     },
@@ -153,7 +153,7 @@ PROPERTIES = {
         "title": "Transport parameters are validated and applied exactly as RFC 9000 specifies",
         "steps": [seq("c14.*"), net("C14")],
         "technique": "bounded-exhaustive enumeration of raw transport-parameter blocks against an independent RFC 9000 18.2/7.4 acceptance table",
-        "level_text": "1.9 M (quick) / 29 M (thorough) raw blocks built byte by byte (never with the repository's encoder): every parameter at and around each bound in every legal varint size, malformed forms, framing damage, all ordered pairs (=> every duplicate) and triples of 623 atoms, unknown/GREASE ids, server-only parameters in client blocks, both roles; oracle: real decode accepts <=> the table accepts, every decoded field equals the declared value or the RFC default, and the values derived for the connection (flow-control limits, stream limits, ACK settings, datagram limits, idle timeout) equal the declared ones.",
+        "level_text": "29 M raw blocks (both tiers) built byte by byte (never with the repository's encoder): every parameter at and around each bound in every legal varint size, malformed forms, framing damage, all ordered pairs (=> every duplicate) and triples of 623 atoms, unknown/GREASE ids, server-only parameters in client blocks, both roles; oracle: real decode accepts <=> the table accepts, every decoded field equals the declared value or the RFC default, and the values derived for the connection (flow-control limits, stream limits, ACK settings, datagram limits, idle timeout) equal the declared ones.",
         "level_note": "Component level (s2n-quic-core public API) plus the netmc tpe2e family: a wrapper around the null TLS endpoint edits the transport-parameter block one side sends (27 items: each bound at its last valid and first invalid value, duplicates, server-only parameters sent by a client, initial_source_connection_id / original_destination_connection_id mismatching or missing, retry_source_connection_id without Retry, unknown/GREASE ids, and declared-limit edits) - the receiving endpoint must close with TRANSPORT_PARAMETER_ERROR (or a generic code) exactly for the invalid blocks, complete the transfer for the valid ones, and obey the declared limits (FC monitor). One defect was repaired (max_ack_delay 2^14, fix: commit); three deviations are listed known findings (non-minimal ack_delay_exponent rejected, short retry_source_connection_id rejected, preferred_address with empty connection id accepted).",
         "design_ref": "DESIGN.md §3 C14",
         "assumptions": ["the acceptance table in engines/seqmc/src/c14.rs transcribes RFC 9000 correctly"],
